@@ -26,7 +26,7 @@ func init() {
 		r.rule += "; plus refresh scenarios with lists that carry no cRLNumber, the same thisUpdate or the same number (the refreshed list must be in force)"
 		c11Numberless(r, "C08")
 	})
-	register("C10", func(r *Run) { runRepoProps(r, "C10") })
+	register("C10", func(r *Run) { runRepoProps(r, "C10"); c10LoaderStream(r) })
 	register("C11", func(r *Run) {
 		runRepoProps(r, "C11")
 		r.rule += "; plus refresh scenarios with lists that carry no cRLNumber (v1, v2 without the extension), the same thisUpdate or the same number"
